@@ -1,4 +1,5 @@
 import PhononModel.Model.ShortestPairs
+import PhononModel.Lemmas.ShortestPairsConvert
 import PhononModel.Model.Wire
 open PhononModel PhononModel.Wire PhononModel.ShortestPairs
 
@@ -52,6 +53,20 @@ def handle (line : String) : String :=
         | .error _ => "err"
         | .ok s => if denseToSparse D == s && sparseToDense s == D then "same" else "differ"
       pure s!"{D.svecs.length} {multi} {sp} {vecs}"
+    | "d2s" =>
+      -- d2s nvec vecs npair (count address)* : `dense_to_sparse_svecs` of an ARBITRARY dense table; per pair the count and the
+      -- 27 slots.  `notwf` when a count exceeds 27 or an address range leaves the vector array (the model has no value there)
+      let (nv, c) ← c.nat?
+      let (vecs, c) ← readV3Rats c nv
+      let (npair, c) ← c.nat?
+      let (ma, c) ← c.nats? (2 * npair)
+      if !c.atEnd then none
+      let d : Dense := { svecs := vecs, multi := (List.range npair).map fun i => (ma[2*i]!, ma[2*i+1]!) }
+      if !(d.multi.all fun (m, a) => decide (m ≤ 27) && decide (a + m ≤ d.svecs.length)) then pure "notwf" else
+      let s := denseToSparse d
+      let back := sparseToDense s
+      let rt := showB ((List.range npair).all fun k => back.read k == d.read k)
+      pure (rt ++ " " ++ " ".intercalate (s.cells.map fun (slots, m) => s!"{m} " ++ " ".intercalate (slots.map showV3Rat)))
     | "wincert" =>
       -- wincert cap G : per-lattice certificate of window completeness; `skip n` when the box has more than cap points
       let (cap, c) ← c.nat?
